@@ -229,10 +229,24 @@ Proof.
   destruct (mask_spec b0 ltac:(lia)) as [HK [H2 _]]. rewrite HK, H2. unfold in_rng. lia.
 Qed.
 
+Lemma lead3_range b0 b1 : lead3 b0 b1 = true -> (224 <= b0 <= 239)%N /\ (128 <= b1 <= 191)%N.
+Proof.
+  unfold lead3, cont, in_rng. intros Hb.
+  apply orb_prop in Hb as [Hb|Hb]; [apply orb_prop in Hb as [Hb|Hb]|];
+    apply andb_prop in Hb as [Hb0 Hb1]; lia.
+Qed.
+
+Lemma lead4_range b0 b1 : lead4 b0 b1 = true -> (240 <= b0 <= 244)%N /\ (128 <= b1 <= 191)%N.
+Proof.
+  unfold lead4, cont, in_rng. intros Hb.
+  apply orb_prop in Hb as [Hb|Hb]; [apply orb_prop in Hb as [Hb|Hb]|];
+    apply andb_prop in Hb as [Hb0 Hb1]; lia.
+Qed.
+
 Lemma lead3_class b0 b1 : lead3 b0 b1 = true ->
   isK b0 = false /\ isL2 b0 = false /\ isL3 b0 = true /\ isK b1 = true.
 Proof.
-  unfold lead3, cont, in_rng. intros Hb.
+  intros Hb. apply lead3_range in Hb as [Hb0 Hb1].
   destruct (mask_spec b0 ltac:(lia)) as [HK [H2 [H3 _]]].
   destruct (mask_spec b1 ltac:(lia)) as [HK1 _].
   rewrite HK, H2, H3, HK1. unfold in_rng. lia.
@@ -241,7 +255,7 @@ Qed.
 Lemma lead4_class b0 b1 : lead4 b0 b1 = true ->
   isK b0 = false /\ isL2 b0 = false /\ isL3 b0 = false /\ isL4 b0 = true /\ isK b1 = true.
 Proof.
-  unfold lead4, cont, in_rng. intros Hb.
+  intros Hb. apply lead4_range in Hb as [Hb0 Hb1].
   destruct (mask_spec b0 ltac:(lia)) as [HK [H2 [H3 H4]]].
   destruct (mask_spec b1 ltac:(lia)) as [HK1 _].
   rewrite HK, H2, H3, H4, HK1. unfold in_rng. lia.
